@@ -109,17 +109,20 @@ def run_for(chk, pid):
         chk.rule(pid + ".selftest-seeded", "thorough tier: an independently written change that breaks this property while passing the "
                                            "pinned test suite makes this check report a violation")
         jobs = []
+        expected = {}       # seeds the owning check answers "cannot decide" by design (recorded in their meta.json, with the reason)
         for n in sorted(os.listdir(sdir)):
             mp, pp = os.path.join(sdir, n, "meta.json"), os.path.join(sdir, n, "patch.diff")
             if os.path.exists(mp) and os.path.exists(pp) and json.load(open(mp)).get("property") == pid:
                 jobs.append((pid, n, pp, base))
+                if json.load(open(mp)).get("expected_exit") is not None:
+                    expected[n] = json.load(open(mp))["expected_exit"]
         with concurrent.futures.ThreadPoolExecutor(max_workers=8) as ex:
             for name, rc, info in ex.map(_run_patch, jobs):
                 if rc == "skipped":
                     results.append(dict(id="seeded:" + name, verdict="skipped", why=info))
                     continue
-                ok = rc == 1
-                chk.ob(pid + ".selftest-seeded", "seeded change %s" % name, ok, "seeded/%s/patch.diff" % name, key="seeded:" + name,
+                ok = rc == expected.get(name, 1)
+                chk.ob(pid + ".selftest-seeded", "seeded change %s%s" % (name, " (answered analysis-broken by design)" if name in expected else ""), ok, "seeded/%s/patch.diff" % name, key="seeded:" + name,
                        detail=("reported: " + info) if ok else "expected a violation, got exit %s %s" % (rc, info))
                 results.append(dict(id="seeded:" + name, verdict="caught" if ok else "MISSED", exit=rc, first_report=info))
     chk.extra["corpus"] = results
